@@ -66,18 +66,22 @@ theorem suggestion_honoured (c : SrvCfg) (db : IPDB Table) (rx : Rx) (o : HOracl
 
 /-- The server stays silent on a well-formed DISCOVER for lack of addresses only when no eligible
 address is left: every address of the dynamic range was examined and found bound, ending in .0 or
-.255, or in conflict (or searching is disabled). -/
+.255, or in conflict (or searching is disabled). The dynamic range lies inside the managed range of the
+network (`hnet`; `server.New` guarantees it — without it the prover produced a counterexample, kept
+as `Proofs.Liveness.silent_only_if_exhausted_false`: a search result outside the network is refused
+by the confirming update). -/
 theorem silent_only_if_exhausted (c : SrvCfg) (db : IPDB Table) (rx : Rx) (o : HOracle)
     (hx : db.s.Exclusive o.t0) (hwf : WellFormedDiscover c rx)
     (hnb : let g := getDuid tableStore db o.t0 rx.msg.chaddr (decodeOptions rx.msg.options).clientIdentifier
            g.1.s.liveDuid o.t1 g.2 = none)
     (hperm : List.Perm o.perm (List.range (1 + db.dynTo - db.dynFrom)))
     (hr : db.dynFrom ≤ db.dynTo ∧ db.dynTo < 4294967296) (hen : ¬ (db.dynTo = 0 ∧ db.dynFrom = 0))
+    (hnet : db.netFrom ≤ db.dynFrom ∧ db.dynTo ≤ db.netTo)
     (hnc : ∀ i, (o.iters i).cancelled = false)
     (hck : o.t0 ≤ o.t1 ∧ o.t1 ≤ (o.iters 0).now ∧ (∀ i, (o.iters i).now ≤ (o.iters (i + 1)).now) ∧ ∀ i, (o.iters i).now ≤ o.t2)
     (hsil : (handleV tableStore c db rx o).2 = .silent) :
     ∀ a, db.dynFrom ≤ a → a ≤ db.dynTo →
       ∃ i, (db.s.liveIp (o.iters i).now a).isSome = true ∨ IPDB.validUip a = false ∨ (o.iters i).free = false :=
-  Proofs.Liveness.silent_only_if_exhausted c db rx o hx hwf hnb hperm hr hen hnc hck hsil
+  Proofs.Liveness.silent_only_if_exhausted_repaired c db rx o hx hwf hnb hperm hr hen hnet hnc hck hsil
 
 end PsaDhcp.Props.C05
